@@ -168,7 +168,7 @@ def tlc(spec_dir, module, cfg, work, env=None, workers=8, simulate=None, depth=N
         r.violated = r.violated or "Deadlock"
     if r.violated:
         i = out.find("Error:")
-        r.error_text = out[i:i + 20000]
+        r.error_text = out[i:i + 2000000]
         return r
     if "Model checking completed. No error has been found." in out or (simulate and p.returncode in (0,) ):
         r.ok = True
